@@ -98,6 +98,11 @@ CHECKS = {
    text="Every returned logistic / multinomial / Tweedie model of the real code is judged by stationarity of the harness's own gradient (self-checked against central differences) up to the configured gradient tolerance plus a noise floor, by the reported class set, by probabilities in [0,1] / rows summing to one at extreme inputs, and by the predicted class being the one the probabilities and threshold imply; out-of-support targets must be rejected with the range error. All 62 labellings of 6 points and all 3-class labellings of 5 points are enumerated.",
    note="Trusts the harness gradients (max relative error vs central differences 1.9e-8). Separable alpha=0 data is excluded by the harness's own Newton iteration. A fit that does not answer within the watchdog, or Err fits (25% of GLM cases overflow on unscaled features), are inconclusive. The f32 start-point-returned-unchanged case of argmin's line search is a recorded known finding.",
    ref="DESIGN.md §5 C12"),
+ "C18": dict(
+   technique="runtime monitor: dense cyclic-Jacobi eigen-decomposition of the sample covariance (harness) as oracle for singular values, eigen-equation residuals, Davis-Kahan angle to the leading space, projected covariance, Ky-Fan captured variance, whitened covariance, transform/inverse round trip; complete small grids",
+   text="Every fitted PCA (every k in 1..p, whitening on/off, hostile spectra, offsets and scales, four layouts) is judged against the oracle decomposition: orthonormal / correctly scaled components, sigma_i^2/(n-1) = i-th eigenvalue, eigenvector residual and subspace angle where the eigen-gap allows, uncorrelated projected coordinates with the reported variances, no k-dimensional projection retaining more variance, identity covariance after whitening, round trip = orthogonal projection, errors for empty data and k outside 1..p. A complete grid p <= 6 (9) x n-classes x data kinds x dressings x all k is enumerated.",
+   note="Trusts the harness Jacobi routine (agrees with oracle.rs to 1e-14). Thresholds VEC 1e-6, VAL 1e-9, ORTH 1e-7 relative to lambda_1; eigenvector statements are skipped inside eigenvalue clusters narrower than 1e-3 lambda_1 at the k boundary (counted). Two faults of the external linfa-linalg crate (eigh plane rotation; LOBPCG non-convergence for p > 500, 5k <= p) are recorded known findings with discriminating signatures.",
+   ref="DESIGN.md §5 C18"),
 }
 
 NOT_YET = {}
